@@ -24,7 +24,7 @@ func init() {
 		Prop:   "C05",
 		Run:    run,
 		Replay: replay,
-		Rule: "Part A/B (E1): every byte string up to the length bound over a 28-symbol alphabet (incl. '%' and '%s': error texts are built with format strings), and every proper prefix and single-byte substitution of a corpus of expressions, is given to the machine constructors (expr, path_eval, leafref, and the custom-function forms: expr with custom functions allowed, path_eval with a user function checker that vouches for every name / for none) under a step horizon; after every constructor and every run the lock bookkeeping of the sync shim must show no lock held (a leaked lock makes a later constructor block for ever); every machine obtained is run on three contexts (virtual identity tree, typed tree, nil-free empty tree). " +
+		Rule: "Part A/B (E1): every byte string up to the length bound over a 28-symbol alphabet (incl. '%' and '%s': error texts are built with format strings), and every proper prefix and single-byte substitution of a corpus of expressions, is given to the machine constructors (expr, path_eval, leafref, and the custom-function forms: expr with custom functions allowed, path_eval with a user function checker that vouches for every name / for none) under a step horizon; after every constructor and every run the lock bookkeeping of the sync shim must show no lock held (a leaked lock makes a later constructor block for ever); every machine obtained is run on the virtual identity tree and on a tree of value kinds (two leaf-lists of equal size, one of another size, an empty one, number, boolean, literal, absent nodes). " +
 			"Part C (E2, fault enumeration): for every corpus expression with data-tree access, run fault-free, count the N callbacks, then for every k<=N (and every pair k<j in the thorough tier) make those callbacks fail with unique errors. " +
 			"Non-trivial = the input got past the first token (constructor) or the run touched the data tree / the stack (runs).",
 		Bound: map[string]string{
@@ -226,6 +226,27 @@ var idTree = mock.NewTree()
 
 // checkRun is part B for one machine and (with faults) part C.
 func checkRun(grammar, src string, m *xpath.Machine, faults []int) (vs []engine.Violation, outcome string, calls int) {
+	return checkRunTree(idTree, grammar, src, m, faults)
+}
+
+// kindTree: values by node name - two leaf-lists of the same size, one of another size, an empty
+// one, a number, a boolean, a literal (names over the letters of the alphabet); every other node is absent.
+var kindTree = func() *mock.Tree {
+	t := mock.NewTree()
+	ds := func(d ...xpath.Datum) xpath.Datum { return xpath.NewDatumSliceDatum(d) }
+	t.ByName = map[string]xpath.Datum{
+		"a": ds(xpath.NewLiteralDatum("x"), xpath.NewLiteralDatum("y")),
+		"d": ds(xpath.NewLiteralDatum("y"), xpath.NewLiteralDatum("z")),
+		"i": ds(xpath.NewNumDatum(1), xpath.NewNumDatum(2), xpath.NewNumDatum(3)),
+		"e": ds(),
+		"v": xpath.NewNumDatum(7),
+		"aa": xpath.NewBoolDatum(true),
+		"ad": xpath.NewLiteralDatum("lit"),
+	}
+	return t
+}()
+
+func checkRunTree(idTree *mock.Tree, grammar, src string, m *xpath.Machine, faults []int) (vs []engine.Violation, outcome string, calls int) {
 	o := runOn(m, idTree, faults)
 	calls = o.calls
 	if isSelfDeadlock(o.panicked) {
@@ -295,6 +316,14 @@ func run(c *engine.Ctx) {
 				c.Outcome("B:" + g + ":" + outcome)
 				c.Add("runs", 1)
 				for _, v := range vs {
+					c.Report(v)
+				}
+				// the same machine on the tree of value kinds (leaf-lists, number, boolean, absent nodes)
+				vs, outcome, _ = checkRunTree(kindTree, g, src, m, nil)
+				c.Outcome("B:kinds:" + g + ":" + outcome)
+				c.Add("runs", 1)
+				for _, v := range vs {
+					v.Key = "kinds:" + v.Key
 					c.Report(v)
 				}
 			}
@@ -425,6 +454,13 @@ func replay(c *engine.Ctx, sub string, raw json.RawMessage) []engine.Violation {
 	if m != nil {
 		v2, _, _ := checkRun(r.Grammar, src, m, r.Faults)
 		vs = append(vs, v2...)
+		if len(r.Faults) == 0 {
+			v3, _, _ := checkRunTree(kindTree, r.Grammar, src, m, nil)
+			for _, v := range v3 {
+				v.Key = "kinds:" + v.Key
+				vs = append(vs, v)
+			}
+		}
 	}
 	return vs
 }
